@@ -349,6 +349,16 @@ Section Solve.
 
   Definition stop_at (max_reg : T) : T -> bool := fun b => ltb NN b max_reg.
 
+  (** ** [Multinomial::sample]: the categorical sampler of the external method.
+      [init_probs] is all but the last probability; [u] is the uniform variate. *)
+  Fixpoint cat_loop (init : list T) (remaining : T) (res : nat) : nat :=
+    match init with
+    | [] => res
+    | v :: r => if ltb NN v remaining then cat_loop r (sub NN remaining v) (S res) else res
+    end.
+
+  Definition categorical (probs : list T) (u : T) : nat := cat_loop (removelast probs) u O.
+
   (** presets *)
   Definition of_nat_T (n : nat) : T := of_N NN (N.of_nat n).
   Definition p_vanilla := mkParams PosInf PosInf (Fin (zero NN)) (Fin (zero NN)).
